@@ -5,12 +5,14 @@ import (
 	"encoding/json"
 	"fmt"
 	"io"
+	"sort"
 	"strings"
 	"testing"
 	"testing/iotest"
 	"text/scanner"
 	"verifharness/fixtures"
 
+	"github.com/alecthomas/participle/v2"
 	"github.com/alecthomas/participle/v2/lexer"
 	"pgregory.net/rapid"
 
@@ -92,6 +94,27 @@ func c04Lex(def lexer.Definition, c *c04Case) lexRun {
 					defer func() { _, _ = l2.Next() }()
 				}
 			}
+		case "parserlex":
+			// Parser.Lex of a parser over the definition: exactly the definition's tokens, whatever the parser elides
+			// or compares case-insensitively when it parses
+			var names []string
+			for n := range def.Symbols() {
+				if n != "EOF" {
+					names = append(names, n)
+				}
+			}
+			sort.Strings(names)
+			opts := []participle.Option{participle.Lexer(def)}
+			if len(names) > 0 {
+				opts = append(opts, participle.Elide(names[0]), participle.CaseInsensitive(names[len(names)-1]), participle.CaseInsensitive(names[0]))
+			}
+			p, err := participle.Build[tokenList](opts...)
+			if err != nil {
+				r.err = err
+				return
+			}
+			r.toks, r.err = p.Lex(c.Filename, strings.NewReader(c.Input))
+			return
 		case "namedreader":
 			// a reader with a Name() of its own (like *os.File): the caller's filename is what positions carry
 			if c.Kind == "scanner" {
@@ -242,7 +265,7 @@ func TestC04(t *testing.T) {
 	runProp(t, "C04", c04Rule, func(t *rapid.T, r *vstat.Run) {
 		c := &c04Case{
 			Filename: rapid.SampledFrom([]string{"", "f", "dir/file.x", "é.txt"}).Draw(t, "filename"),
-			Entry:    rapid.SampledFrom([]string{"string", "reader", "bytes", "string", "reader", "bytes", "dataerr", "onebyte", "namedreader", "partreader", "secondlexer"}).Draw(t, "entry"),
+			Entry:    rapid.SampledFrom([]string{"string", "reader", "bytes", "string", "reader", "bytes", "dataerr", "onebyte", "namedreader", "partreader", "secondlexer", "parserlex"}).Draw(t, "entry"),
 		}
 		switch k := rapid.IntRange(0, 10).Draw(t, "kind"); {
 		case k == 10:
